@@ -301,10 +301,15 @@ def rule_r8(text, rules):
     for i, t in enumerate(st):
         if t.kind == "ident" and t.text in LOG_MACROS and i + 2 < len(st) and st[i + 1].text == "!" and st[i + 2].text == "(":
             c = match_close(st, i + 2)
-            if _stmt_start(st, i) and c + 1 < len(st) and st[c + 1].text == ";":
-                edits.append((t.start, st[c + 1].end, ""))
+            # `log::warn!(..)` / `::log::warn!(..)`: the path prefix belongs to the macro call
+            b = i
+            if b >= 2 and st[b - 1].text == "::" and st[b - 2].kind == "ident" and st[b - 2].text == "log":
+                b -= 2
+                if b >= 1 and st[b - 1].text == "::": b -= 1
+            if _stmt_start(st, b) and c + 1 < len(st) and st[c + 1].text == ";":
+                edits.append((st[b].start, st[c + 1].end, ""))
             else:
-                edits.append((t.start, st[c].end, "()"))
+                edits.append((st[b].start, st[c].end, "()"))
             rules.append("R8")
     return apply_edits(text, edits) if edits else text
 
